@@ -31,7 +31,7 @@ class TreeSpec:
     # nontrivial(cd, tree, labels, extra) -> bool
     nontrivial: Callable
     extra: Callable | None = None  # cd -> strategy
-    quick_examples: int = 25
+    quick_examples: int = 60
     thorough_examples: int = 300
     quick_extra_classes: int = 150
     class_filter: Callable | None = None  # cd -> bool
